@@ -514,7 +514,7 @@ class Interp:
             where_.append((tuple(x[0] for x in inside), conditional))
         self.run_generator(gen, got)
         # one yield inside ONE symbolically executed loop: the generator is the comprehension [value for elem in iterable]
-        if len(out) == 1 and isinstance(out[0], Each) and len(where_[0][0]) == 1 and not where_[0][1] and self.run.loop_depth == depth0:
+        if len(out) == 1 and isinstance(out[0], Each) and not isinstance(out[0].value, (Frame, GroupBy)) and len(where_[0][0]) == 1 and not where_[0][1] and self.run.loop_depth == depth0:
             return ("comp", "list", to_term(out[0].value), where_[0][0][0], T.TRUE)
         return out
 
